@@ -48,7 +48,7 @@ def main():
             return 2
     sh("git checkout -q -- . && git clean -fdq", cwd=WT)
     sh(f"git -C {WT} checkout -q --detach $(git -C {REPO} rev-parse HEAD)")
-    rc, o = sh(f"{PY} {demo}", cwd=WT, timeout=900)
+    rc, o = sh(f"PYTHONPATH={WT} {PY} {demo}", cwd=WT, timeout=900)  # the worktree package, whatever the demo does with sys.path
     out["demo_pristine_exit"] = rc
     out["demo_pristine_tail"] = o[-400:]
     rc, o = sh(f"git apply {patch}", cwd=WT)
@@ -57,7 +57,7 @@ def main():
         out["apply_error"] = o[-400:]
         print(json.dumps(out, indent=1))
         return 1
-    rc, o = sh(f"{PY} {demo}", cwd=WT, timeout=900)
+    rc, o = sh(f"PYTHONPATH={WT} {PY} {demo}", cwd=WT, timeout=900)
     out["demo_patched_exit"] = rc
     out["demo_patched_tail"] = o[-600:]
     if not skip_suite:
